@@ -14,6 +14,10 @@ import (
 // (https://www.w3.org/TR/WOFF/): 44-byte header, 20-byte table directory entries
 // (tag, offset, compLength, origLength, origChecksum), table data zlib-compressed when compLength < origLength.
 func woffToSfnt(w []byte) ([]byte, error) {
+	if len(w) >= 12 && (string(w[:4]) == "\x00\x01\x00\x00" || string(w[:4]) == "OTTO" || string(w[:4]) == "true") {
+		// d2 ships some full fonts as bare sfnt data under the font-woff media type; browsers sniff the signature
+		return w, nil
+	}
 	if len(w) < 44 || string(w[:4]) != "wOFF" {
 		return nil, errors.New("not a WOFF 1.0 file (bad signature)")
 	}
